@@ -331,6 +331,124 @@ def _d6(chk, fb):
     c07.logsum_rule(chk, fb, "D6")
 
 
+def _d7(chk, fb):
+    """reference aliasing at call sites: a callee that updates the elements of a container received by non-const reference while
+    it keeps reading a scalar received by const reference must not be handed an element of that same container as the scalar
+    (v -= v[k]: once v[k] has been updated to 0 the remaining elements are shifted by 0)"""
+    eff = e1.Effects(fb)
+    summ = {}
+
+    def shape(t):
+        """(index of the written reference parameter, indices of const-reference scalars read inside a loop that writes it)"""
+        if t.key in summ:
+            return summ[t.key]
+        summ[t.key] = None
+        if t.body is None or len(t.params) < 2:
+            return None
+        pt = [p_.get("ty", "") for p_ in t.params]
+        wr = [i for i, ty in enumerate(pt) if ty.endswith("&") and not ty.startswith("const ") and "vector" in ty]
+        rd = [j for j, ty in enumerate(pt) if ty.startswith("const ") and ty.endswith("&") and "vector" not in ty and "Matrix" not in ty and "basic_string" not in ty]
+        if not wr or not rd:
+            return None
+        out = None
+        for lp in [x for x in t.all_nodes() if x["k"] in ("ForStmt", "CXXForRangeStmt", "WhileStmt")]:
+            names = {x["decl"]["name"] for x in walk(lp) if x["k"] == "DeclRefExpr" and x["decl"]["kind"] == "param"}
+            w_in = [i for i in wr if t.params[i]["name"] in names]
+            r_in = [j for j in rd if t.params[j]["name"] in names]
+            writes = any(x["k"] in ("CompoundAssignOperator", "BinaryOperator") and x.get("op", "").endswith("=") and x["op"] not in ("==", "!=", "<=", ">=") for x in walk(lp))
+            if w_in and r_in and writes:
+                out = (w_in[0], r_in)
+        if out is None:
+            out = (wr[0], [], rd)       # signature of an update-by-scalar helper whose loop does not read the reference itself
+        summ[t.key] = out
+        return out
+    n = 0
+    for f in fb.concrete_fns():
+        if f.body is None:
+            continue
+        for c in f.calls():
+            if not c["callee"].get("inrepo"):
+                continue
+            for t in fb.targets(c, static_type_only=True):
+                sh = shape(t)
+                if sh is None:
+                    continue
+                args = ([f.obj(c)] if "obj" in c and c["callee"].get("via") != "operator" else []) + f.args(c)
+                if len(args) != len(t.params):
+                    args = f.args(c)
+                if len(args) != len(t.params):
+                    continue
+                wi, rjs = sh[0], sh[1]
+                rootw = e1._root_decl(args[wi])
+                for j in (sh[2] if len(sh) > 2 else []):
+                    aj = strip(args[j])
+                    if is_call(aj) and aj["callee"]["name"] in ("operator[]", "at", "front", "back", "operator*") and rootw is not None and e1._root_decl(aj) == rootw:
+                        n += 1
+                        chk.proved("D7", f.key, "alias:%s(%s, %s)" % (t.name, render(args[wi])[:20], render(aj)[:40]), f.loc(c),
+                                   "an element of the updated container is passed as the scalar, and %s does not read the reference inside its updating loop (it works on a copy)" % t.name)
+                for j in rjs:
+                    aj = strip(args[j])
+                    n += 1
+                    con = "alias:%s(%s, %s)" % (t.name, render(args[wi])[:20], render(aj)[:40])
+                    elem = is_call(aj) and aj["callee"]["name"] in ("operator[]", "at", "front", "back", "operator*")
+                    if rootw is not None and elem and e1._root_decl(aj) == rootw:
+                        chk.refuted("D7", f.key, con, f.loc(c),
+                                    "'%s' hands %s an element of the very container it updates, by const reference: %s reads the scalar again for every element, and once the aliased element has been updated itself the "
+                                    "remaining elements are combined with the new value (v -= v[k] leaves the elements after k unshifted)" % (render(c)[:60], t.name, t.name),
+                                    witness={"input": "a vector whose selected element is not the last one"})
+                    else:
+                        chk.proved("D7", f.key, con, f.loc(c), "the scalar is not an element of the updated container")
+    chk.floor("D7", "calls that pass an element of the updated container (or a hazardous helper)", n, 4)
+
+
+def _d8(chk, fb):
+    """the element accessor Pij(i, j) and the matrix view getPij() of one transition model are two implementations of one table:
+    the expression stored into pij_(a, b) is the expression returned by Pij(a, b)"""
+    import re
+    n = 0
+    for cls in sorted(fb.classes):
+        if not fb.derives_from(cls, "bpp::HmmTransitionMatrix") or fb.classes[cls].get("abstract"):
+            continue
+        acc = [f for f in fb.q(cls + "::Pij") if len(f.params) == 2 and f.body is not None]
+        view = [f for f in fb.q(cls + "::getPij") if f.body is not None]
+        if not acc or not view:
+            continue
+        A, V = acc[0], view[0]
+        rets = [x for x in walk(A.body) if x["k"] == "ReturnStmt" and kids(x)]
+        stores = []
+        for x in walk(V.body):
+            if x["k"] == "BinaryOperator" and x["op"] == "=":
+                l_ = strip(kids(x)[0])
+                if is_call(l_) and l_["callee"]["name"] == "operator()" and "obj" in l_ and render(V.obj(l_)) == "pij_" and len(V.args(l_)) == 2:
+                    stores.append((x, l_))
+        if len(rets) != 1 or len(stores) != 1:
+            chk.unknown("D8", V.key, "view-equals-accessor", V.loc(), "Pij has %d return(s), getPij %d store(s) into pij_: not the one-expression form this rule compares" % (len(rets), len(stores)))
+            continue
+        n += 1
+        pi, pj = A.params[0]["name"], A.params[1]["name"]
+        va, vb = render(V.args(stores[0][1])[0]), render(V.args(stores[0][1])[1])
+
+        def canon(t, a, b):
+            t = re.sub(r"\b%s\b" % re.escape(a), "@1", t)
+            t = re.sub(r"\b%s\b" % re.escape(b), "@2", t) if a != b else t
+            return t
+        e1_ = canon(render(kids(rets[0])[0]), pi, pj)
+        e2_ = canon(render(kids(stores[0][0])[1]), va, vb)
+        if e1_ == e2_:
+            chk.proved("D8", V.key, "view-equals-accessor", V.loc(stores[0][0]), "pij_(a, b) and Pij(a, b) are the same expression")
+            continue
+        t1, t2 = re.findall(r"@1|@2|\w+|\S", e1_), re.findall(r"@1|@2|\w+|\S", e2_)
+        if len(t1) == len(t2) and all(x == y or {x, y} == {"@1", "@2"} for x, y in zip(t1, t2)):
+            k = [i for i, (x, y) in enumerate(zip(t1, t2)) if x != y][0]
+            chk.refuted("D8", V.key, "view-equals-accessor", V.loc(stores[0][0]),
+                        "getPij() stores '%s' while Pij(%s, %s) returns '%s': the two differ only in which index a term uses, so the matrix handed to the derivative recursions and the sampler is not the table the forward/backward recursions read" % (
+                            render(kids(stores[0][0])[1])[:80], pi, pj, render(kids(rets[0])[0])[:80]),
+                        witness={"input": "state-specific parameters (rows that differ)"})
+        else:
+            chk.unknown("D8", V.key, "view-equals-accessor", V.loc(stores[0][0]), "the two expressions differ in form: '%s' / '%s'" % (e1_[:60], e2_[:60]))
+    chk.floor("D8", "transition models with an element accessor and a matrix view", n, 2)
+
+
 def run(chk, fb, tier):
     chk.rule("D1", "every fireParameterChanged below AbstractHmmLikelihood resets the derivative memo keys and clears the backward lazy flags on every path that recomputes the forward pass")
     chk.rule("D2", "a method setting upToDate_ = true has written every member that some getter returns under 'if (!upToDate_)'; fireParameterChanged clears the flag unconditionally")
@@ -342,4 +460,8 @@ def run(chk, fb, tier):
     _d3(chk, fb)
     _d5(chk, fb)
     _d6(chk, fb)
+    chk.rule("D7", "no call in the HMM units hands a helper that updates a vector element by element (by non-const reference) an element of that same vector as the const-reference scalar it keeps reading")
+    _d7(chk, fb)
+    chk.rule("D8", "Pij(i, j) and the entry getPij() stores at (i, j) are the same expression in every built-in transition model")
+    _d8(chk, fb)
     chk.assume("memo keys are compared with variable names; the empty string is never a variable name")
